@@ -21,7 +21,7 @@ except Exception:  # pragma: no cover - e.g. manifest generation without the rep
 PROP = 'C08'
 LEAN_TARGETS = ['VivProps.C08']
 DRIVER = 'Registry'
-REQUIRED_THEOREMS = [
+REQUIRED_THEOREMS = ['default_updater_as_in_source', 
     'table_total', 'table_as_modelled', 'leaf_updater_choice', 'leaf_value', 'multi_is_fold',
     'frame', 'units_declared', 'set_law', 'null_law', 'accumulate_int', 'accumulate_array',
     'nonneg_int', 'nonneg_array', 'merge_lookup', 'merge_keys', 'dict_value_add',
